@@ -145,6 +145,7 @@ def run(ctx):
     rng = random.Random(ctx.seed)
     observers = {"Transparent", "Exception"}
     found = {}
+    ctx.flush_hooks.append(lambda: [ctx.violation("%s:%s" % (d["observer"], d["history"]), d) for _, d in sorted(found.items())])
     # 1. the invariant on the model (repaired-code constants); a violation here is a design-level finding
     r = sd.run_tlc(ctx, "inv", 6 if quick else 8, 2 if quick else 3, ["Transparent", "SelectionSound"])
     ctx.tlc(r, "Session Transparent", vacuity_actions=None if r.violation else VAC)
